@@ -4,6 +4,10 @@ Property theorems about the selection model `Model/MOO.lean`.
 -/
 import SharkVerif.Lemmas.MOO
 import SharkVerif.Lemmas.Hypervolume
+import SharkVerif.Lemmas.MOOInd
+import SharkVerif.Lemmas.MOOStep
+import SharkVerif.Lemmas.MOOElit
+import SharkVerif.Lemmas.MOOHv
 namespace SharkVerif.C14
 open SharkVerif.MOO SharkVerif.Pareto SharkVerif.HV
 
@@ -144,5 +148,384 @@ example : hvSpec [[1, 3], [3, 1]] [4, 4] ≤ hvSpec ((([[1, 3], [3, 1]] : List P
     contribSpec (([[1, 3], [3, 1]] : List Pt) ++ [[2, 2]]) [4, 4] 0 ≤
       contribSpec (([[1, 3], [3, 1]] : List Pt) ++ [[2, 2]]) [4, 4] 2 := by
   decide
+
+/-! ## the modelled indicators satisfy the contract of the selection theorems -/
+
+/-- **C14 (indicator contract, generic)**: the `leastContributors` loop shared by
+`HypervolumeIndicator`, `CrowdingDistance` and `AdditiveEpsilonIndicator` returns `K` distinct
+positions of the front for every front, archive and `K ≤ |front|`, whenever the one-point routine
+`leastContributor` returns a position inside the (non-empty) front it is given. -/
+theorem leastContributors_loop_contract (lc : LeastFn) (hlc : LcOK lc) (pts : List Pt) :
+    IndOK (mkIndicator lc pts) := mkIndicator_ok lc hlc pts
+
+/-- **C14 (indicator contract, the four modelled indicators)**: hypervolume indicator with a
+reference point (2-D and 3-D routines), hypervolume indicator without reference point (2-D),
+additive epsilon indicator, crowding distance (for every arithmetic, in particular IEEE doubles
+with NaN/inf): each returns `K` distinct positions of the front. -/
+theorem modelled_indicators_contract (pts : List Pt) (r : Pt) {α : Type} (N : CrowdNum α) :
+    IndOK (mkIndicator (hvLeastRef r) pts) ∧ IndOK (mkIndicator hvLeastNoRef2d pts) ∧
+    IndOK (mkIndicator epsLeast pts) ∧ IndOK (mkIndicator (crowdLeast N) pts) :=
+  ⟨mkIndicator_ok _ (hvLeastRef_ok r) pts, mkIndicator_ok _ hvLeastNoRef2d_ok pts,
+   mkIndicator_ok _ epsLeast_ok pts, mkIndicator_ok _ (crowdLeast_ok N) pts⟩
+
+example : mkIndicator epsLeast [[0, 3], [1, 1], [3, 0]] [0, 1, 2] [] 2 = [0, 2] := by decide
+
+
+/-- **C14 (selection count with the modelled indicators)**: the hypothesis on the indicator of
+`selection_count` is discharged: for every population of `m`-dimensional fitness vectors and
+every `1 ≤ mu ≤ n`, `IndicatorBasedSelection` with any indicator built on the shared loop
+(hypervolume, epsilon, crowding) marks exactly `mu` individuals. -/
+theorem selection_count_modelled_indicators (lc : LeastFn) (hlc : LcOK lc) (pts : List Pt) (m mu : Nat)
+    (hd : ∀ p ∈ pts, p.length = m) (hmu : 1 ≤ mu) (hn : mu ≤ pts.length) :
+    (select (mkIndicator lc pts) (fastSort pts) mu).count true = mu := by
+  have hfs : fastSort pts = pts.map (rankSpec pts) := fastSort_eq hd
+  apply select_count _ (mkIndicator_ok lc hlc pts) _ mu hmu (by rw [hfs]; simpa using hn)
+  intro i hi
+  rw [hfs] at hi ⊢
+  simp only [List.length_map] at hi
+  unfold rankAt
+  rw [List.getD_eq_getElem?_getD, List.getElem?_map, List.getElem?_eq_getElem hi]
+  exact rankSpec_pos _ _
+
+example : (select (mkIndicator epsLeast [[0, 3], [1, 1], [3, 0], [2, 2]])
+    (fastSort [[0, 3], [1, 1], [3, 0], [2, 2]]) 2) = [false, true, true, false] := by decide
+
+/-! ## PenalizingEvaluator -/
+
+/-- **C14 (reported value = f(closest feasible point))**: for every objective `f`, box, penalty
+factor and search point, `PenalizingEvaluator` stores the point unchanged, the unpenalized
+fitness is `f` at the closest feasible point (the point itself if it is feasible), the
+penalized fitness adds `alpha·‖x − closest‖²` to every objective, and the closest feasible
+point of a well-formed box is feasible. -/
+theorem evaluator_value_is_f_at_closest_feasible (f : List Int → Pt) (lo hi : List Int) (alpha : Int) (x : List Int) :
+    (penEval f lo hi alpha x).x = x ∧
+    (penEval f lo hi alpha x).unpen = f (clampBox lo hi x) ∧
+    (penEval f lo hi alpha x).pen = (f (clampBox lo hi x)).map (· + alpha * normSqDiff (clampBox lo hi x) x) ∧
+    (feasible lo hi x = true → clampBox lo hi x = x ∧ (penEval f lo hi alpha x).pen = f x) ∧
+    (boxOK lo hi = true → feasible lo hi (clampBox lo hi x) = true) :=
+  ⟨rfl, penEval_unpen .., penEval_pen .., fun h => ⟨clampBox_of_feasible _ _ _ h, penEval_pen_feasible _ _ _ _ _ h⟩,
+   fun h => feasible_clampBox _ _ _ h⟩
+
+example : penEval (fun x => [x.foldl (· + ·) 0, 7]) [0, 0] [2, 2] 3 [5, 1] =
+    { x := [5, 1], unpen := [3, 7], pen := [30, 34] } := by decide
+
+/-! ## TournamentSelection -/
+
+/-- **C14 (tournament)**: for every rank vector and every sequence of drawn indices the winner
+is one of the drawn candidates and no drawn candidate has a better rank. -/
+theorem tournament_winner_best_of_drawn (ranks : List Nat) (d : Nat) (ds : List Nat) :
+    tournament ranks (d :: ds) ∈ d :: ds ∧
+    ∀ c ∈ d :: ds, ranks.getD (tournament ranks (d :: ds)) 0 ≤ ranks.getD c 0 :=
+  tournament_fold_spec ranks ds d
+
+example : tournament [3, 1, 2, 1] [0, 3, 1] = 3 := by decide
+
+/-! ## population updates: size, consistency, box -/
+
+/-- **C14 (solution-set size, all seven update rules)**: every population update returns exactly
+`mu` individuals (the steady-state rules and MOEA/D: as many as there were parents). -/
+theorem update_size_invariant (ind : List Pt → Indicator) (parents offspring : List Indiv) (o : Indiv) (mu : Nat)
+    (hmu : mu ≤ parents.length + offspring.length) :
+    (genUpdate ind parents offspring mu).length = mu ∧
+    (steadyUpdate ind parents o mu).length = parents.length ∧
+    (ssmocmaUpdate ind parents o mu).length = parents.length ∧
+    (∀ groups grp apd, (rveaUpdate parents offspring groups grp apd mu).length = mu) ∧
+    (∀ t weights nbh (s : MoeadState), (moeadUpdate t weights nbh s o).parents.length = s.parents.length) := by
+  refine ⟨genUpdate_length ind parents offspring mu hmu, steadyUpdate_length ind parents o mu, ?_,
+    fun groups grp apd => rveaUpdate_length parents offspring groups grp apd mu hmu,
+    fun t weights nbh s => moeadUpdate_length t weights nbh s o⟩
+  unfold ssmocmaUpdate
+  simp only
+  rw [(sortRankOne_perm _ _).length_eq, steadyUpdate_length]
+
+/-- **C14 (no individual is invented)**: every member of the updated population carries the
+search point and both fitness vectors of a parent or an offspring — for all seven update rules. -/
+theorem update_members_from_pool (ind : List Pt → Indicator) (parents offspring : List Indiv) (o : Indiv) (mu : Nat) :
+    (∀ q ∈ genUpdate ind parents offspring mu, ∃ p ∈ parents ++ offspring, core q = core p) ∧
+    (∀ q ∈ steadyUpdate ind parents o mu, ∃ p ∈ parents ++ [o], core q = core p) ∧
+    (∀ q ∈ ssmocmaUpdate ind parents o mu, ∃ p ∈ parents ++ [o], core q = core p) ∧
+    (∀ groups grp apd, ∀ q ∈ rveaUpdate parents offspring groups grp apd mu, ∃ p ∈ parents ++ offspring, core q = core p) ∧
+    (∀ t weights nbh (s : MoeadState), ∀ q ∈ (moeadUpdate t weights nbh s o).parents, q = o ∨ q ∈ s.parents) := by
+  refine ⟨genUpdate_mem ind parents offspring mu, steadyUpdate_mem ind parents o mu, ?_,
+    fun groups grp apd => rveaUpdate_mem parents offspring groups grp apd mu,
+    fun t weights nbh s => moeadUpdate_mem t weights nbh s o⟩
+  intro q hq
+  unfold ssmocmaUpdate at hq
+  exact steadyUpdate_mem ind parents o mu q ((sortRankOne_perm _ _).mem_iff.mp hq)
+
+/-- **C14 (generational run: size, value = f(closest feasible point), in the box)**: for every
+indicator, objective, well-formed box, penalty factor, *arbitrary* variation operator followed
+by the clamp of SBX / polynomial mutation, every initial population of `mu` consistent in-box
+individuals and every sequence of random streams (any number of steps), the population always
+has `mu` members, each consistent and inside the box (NSGA-II, NSGA-III). -/
+theorem generational_run_invariants (ind : List Pt → Indicator) (f : List Int → Pt) (lo hi : List Int)
+    (hbox : boxOK lo hi = true) (alpha : Int) (vary : List Indiv → List Nat → List (List Int)) (mu : Nat)
+    (pop0 : List Indiv) (hlen : pop0.length = mu)
+    (h0 : ∀ p ∈ pop0, Consistent f lo hi p ∧ InBox lo hi p) (rnds : List (List Nat)) :
+    (runSteps (genStep ind f lo hi alpha (boundedVariation vary lo hi) mu) pop0 rnds).length = mu ∧
+    ∀ q ∈ runSteps (genStep ind f lo hi alpha (boundedVariation vary lo hi) mu) pop0 rnds,
+      Consistent f lo hi q ∧ InBox lo hi q := by
+  constructor
+  · apply runSteps_length _ mu _ rnds pop0 hlen
+    intro pop rnd hp
+    exact genUpdate_length ind pop _ mu (by omega)
+  · apply runSteps_inv _ _ _ rnds pop0 h0
+    intro pop rnd hp q hq
+    obtain ⟨p, hp', hc⟩ := genUpdate_mem ind pop _ mu q hq
+    rcases List.mem_append.mp hp' with h | h
+    · exact ⟨consistent_of_core hc (hp p h).1, inBox_of_core hc (hp p h).2⟩
+    · obtain ⟨x, hx, rfl⟩ := List.mem_map.mp h
+      obtain ⟨y, _, rfl⟩ := List.mem_map.mp hx
+      exact ⟨consistent_of_core hc (penEval_consistent ..), inBox_of_core hc (penEval_inBox f lo hi alpha y hbox)⟩
+
+/-- **C14 (generational run with unbounded variation: size and consistency)**: the same without
+the clamp (MO-CMA-ES: Gaussian sampling leaves the box): size and value = f(closest feasible
+point) still hold at every step. -/
+theorem generational_run_consistency (ind : List Pt → Indicator) (f : List Int → Pt) (lo hi : List Int)
+    (alpha : Int) (vary : List Indiv → List Nat → List (List Int)) (mu : Nat)
+    (pop0 : List Indiv) (hlen : pop0.length = mu)
+    (h0 : ∀ p ∈ pop0, Consistent f lo hi p) (rnds : List (List Nat)) :
+    (runSteps (genStep ind f lo hi alpha vary mu) pop0 rnds).length = mu ∧
+    ∀ q ∈ runSteps (genStep ind f lo hi alpha vary mu) pop0 rnds, Consistent f lo hi q := by
+  constructor
+  · apply runSteps_length _ mu _ rnds pop0 hlen
+    intro pop rnd hp
+    exact genUpdate_length ind pop _ mu (by omega)
+  · apply runSteps_inv _ _ _ rnds pop0 h0
+    intro pop rnd hp q hq
+    obtain ⟨p, hp', hc⟩ := genUpdate_mem ind pop _ mu q hq
+    rcases List.mem_append.mp hp' with h | h
+    · exact consistent_of_core hc (hp p h)
+    · obtain ⟨x, _, rfl⟩ := List.mem_map.mp h
+      exact consistent_of_core hc (penEval_consistent ..)
+
+/-- **C14 (steady-state run: size, consistency, box)**: SMS-EMOA (bounded variation); without the
+`InBox` part the proof is the same for the steady-state MO-CMA-ES. -/
+theorem steady_run_invariants (ind : List Pt → Indicator) (f : List Int → Pt) (lo hi : List Int)
+    (hbox : boxOK lo hi = true) (alpha : Int) (vary : List Indiv → List Nat → List Int) (mu : Nat)
+    (pop0 : List Indiv) (hlen : pop0.length = mu)
+    (h0 : ∀ p ∈ pop0, Consistent f lo hi p ∧ InBox lo hi p) (rnds : List (List Nat)) :
+    (runSteps (steadyStep ind f lo hi alpha (fun ps r => clampBox lo hi (vary ps r)) mu) pop0 rnds).length = mu ∧
+    ∀ q ∈ runSteps (steadyStep ind f lo hi alpha (fun ps r => clampBox lo hi (vary ps r)) mu) pop0 rnds,
+      Consistent f lo hi q ∧ InBox lo hi q := by
+  constructor
+  · apply runSteps_length _ mu _ rnds pop0 hlen
+    intro pop rnd hp
+    unfold steadyStep
+    rw [steadyUpdate_length]; exact hp
+  · apply runSteps_inv _ _ _ rnds pop0 h0
+    intro pop rnd hp q hq
+    obtain ⟨p, hp', hc⟩ := steadyUpdate_mem ind pop _ mu q hq
+    rcases List.mem_append.mp hp' with h | h
+    · exact ⟨consistent_of_core hc (hp p h).1, inBox_of_core hc (hp p h).2⟩
+    · simp only [List.mem_singleton] at h
+      subst h
+      exact ⟨consistent_of_core hc (penEval_consistent ..), inBox_of_core hc (penEval_inBox f lo hi alpha _ hbox)⟩
+
+example : (genStep (mkIndicator epsLeast) (fun x => [x.foldl (· + ·) 0, 3 - x.foldl (· + ·) 0]) [0] [3] 1
+      (boundedVariation (fun _ r => r.map fun v => [Int.ofNat v]) [0] [3]) 2
+      [{ x := [1], pen := [1, 2], unpen := [1, 2] }, { x := [2], pen := [2, 1], unpen := [2, 1] }] [7, 0]).map (·.x) = [[0], [3]] := by
+  decide
+
+/-! ## elitism of the truncation `std::partition; erase(begin + mu, end)` -/
+
+/-- **C14 (the survivors are exactly the selected individuals)**: for every population `l` whose
+`selected()` flags mark exactly `mu` individuals (what `IndicatorBasedSelection` delivers:
+`selection_count_modelled_indicators`), libstdc++'s `std::partition` followed by
+`erase(begin + mu, end)` keeps precisely the flagged individuals (as a multiset) and nothing else.
+Together with `selection_rank_monotone` / `selection_keeps_better_fronts` (the flags never prefer
+a worse non-domination rank) this is the elitism clause for NSGA-II, NSGA-III and MO-CMA-ES. -/
+theorem truncation_keeps_exactly_the_selected (l : List Indiv) (mu : Nat)
+    (hcount : l.countP (·.sel) = mu) :
+    (∀ k ∈ (stdPartition l.length l).take mu, k.sel = true) ∧
+    ((stdPartition l.length l).take mu).Perm (l.filter (·.sel)) := by
+  obtain ⟨S, U, e, hS, hU⟩ := stdPartition_blocks l.length l (Nat.le_refl _)
+  have hperm := stdPartition_perm l.length l
+  rw [e] at hperm
+  have hfS : S.filter (·.sel) = S := List.filter_eq_self.mpr (fun a ha => hS a ha)
+  have hfU : U.filter (·.sel) = [] := List.filter_eq_nil_iff.mpr (fun a ha => by simp [hU a ha])
+  have hfilt : (S ++ U).filter (·.sel) = S := by rw [List.filter_append, hfS, hfU]; simp
+  have hlen : S.length = mu := by
+    rw [← hcount, List.countP_eq_length_filter, ← (hperm.filter _).length_eq, hfilt]
+  have htake : (stdPartition l.length l).take mu = S := by
+    rw [e, ← hlen]; simp
+  rw [htake]
+  refine ⟨hS, ?_⟩
+  have := hperm.filter (·.sel)
+  rw [hfilt] at this
+  exact this
+
+example : (stdPartition 4 [{ x := [0], pen := [], unpen := [], sel := false }, { x := [1], pen := [], unpen := [], sel := true },
+      { x := [2], pen := [], unpen := [], sel := false }, { x := [3], pen := [], unpen := [], sel := true }]).map (·.x) =
+    [[3], [1], [2], [0]] := by decide
+
+/-- **C14 (elitism of the generational update, no hypothesis on flags)**: for every indicator built on
+the shared `leastContributors` loop (hypervolume, epsilon, crowding), all parent and offspring
+populations with `m`-dimensional penalized fitness and every `1 ≤ mu ≤ |parents| + |offspring|`, the update of
+NSGA-II / NSGA-III / MO-CMA-ES (`insert; select; std::partition; erase`) keeps exactly the `mu`
+individuals marked by the selection (as a multiset), every survivor is marked, and no marked
+individual has a worse non-domination rank than an unmarked (discarded) one. -/
+theorem generational_update_elitist (lc : LeastFn) (hlc : LcOK lc) (parents offspring : List Indiv) (m mu : Nat)
+    (hd : ∀ p ∈ parents ++ offspring, p.pen.length = m) (hmu : 1 ≤ mu) (hn : mu ≤ parents.length + offspring.length) :
+    (genUpdate (mkIndicator lc) parents offspring mu).length = mu ∧
+    (∀ k ∈ genUpdate (mkIndicator lc) parents offspring mu, k.sel = true) ∧
+    (genUpdate (mkIndicator lc) parents offspring mu).Perm
+      ((applySelect (mkIndicator lc) (parents ++ offspring) mu).filter (·.sel)) ∧
+    (∀ i j, i < parents.length + offspring.length → j < parents.length + offspring.length →
+      ((applySelect (mkIndicator lc) (parents ++ offspring) mu).getD i default).sel = true →
+      ((applySelect (mkIndicator lc) (parents ++ offspring) mu).getD j default).sel = false →
+      ((applySelect (mkIndicator lc) (parents ++ offspring) mu).getD i default).rank ≤
+        ((applySelect (mkIndicator lc) (parents ++ offspring) mu).getD j default).rank) := by
+  have hdp : ∀ p ∈ (parents ++ offspring).map (·.pen), p.length = m := by
+    intro p hp
+    obtain ⟨q, hq, rfl⟩ := List.mem_map.mp hp
+    exact hd q hq
+  have hcount : (applySelect (mkIndicator lc) (parents ++ offspring) mu).countP (·.sel) = mu := by
+    rw [applySelect_countP _ _ mu m hd]
+    exact selection_count_modelled_indicators lc hlc _ m mu hdp hmu (by simpa using hn)
+  have htr := truncation_keeps_exactly_the_selected (applySelect (mkIndicator lc) (parents ++ offspring) mu) mu hcount
+  refine ⟨genUpdate_length _ parents offspring mu hn, htr.1, htr.2, ?_⟩
+  intro i j hi hj hsi hsj
+  have hi' : i < (parents ++ offspring).length := by simpa using hi
+  have hj' : j < (parents ++ offspring).length := by simpa using hj
+  rw [applySelect_sel _ _ _ i hi'] at hsi
+  rw [applySelect_sel _ _ _ j hj'] at hsj
+  rw [applySelect_rank _ _ _ i hi', applySelect_rank _ _ _ j hj']
+  have hlen : (fastSort ((parents ++ offspring).map (·.pen))).length = (parents ++ offspring).length := by
+    rw [fastSort_length hdp]; simp
+  have hsl := select_length (mkIndicator lc ((parents ++ offspring).map (·.pen))) (fastSort ((parents ++ offspring).map (·.pen))) mu
+  apply selection_rank_monotone _ _ mu i j (by omega) (by omega) hsi
+  rw [List.getD_eq_getElem?_getD, List.getElem?_eq_getElem (by omega)] at hsj ⊢
+  simpa using hsj
+
+example : (genUpdate (mkIndicator epsLeast) [{ x := [1], pen := [1, 2], unpen := [1, 2] }, { x := [2], pen := [2, 1], unpen := [2, 1] }]
+    [{ x := [3], pen := [3, 3], unpen := [3, 3] }] 2).map (fun p => (p.x, p.rank, p.sel)) = [([1], 1, true), ([2], 1, true)] := by decide
+
+/-! ## steady-state hypervolume monotonicity, composed end to end -/
+
+/-- **C14 (steady-state hypervolume never decreases — end to end, any number of objectives)**: let
+`lc` be a `leastContributor` routine that returns valid positions and, on fronts below the fixed
+reference point `r`, a position of minimal hypervolume contribution.  Then for every parent
+population of `mu ≥ 1` individuals and every offspring whose penalized fitness vectors are
+`m`-dimensional and strictly below `r`, the update `SMSEMOA::updatePopulation` (append the offspring,
+`IndicatorBasedSelection` with the indicator built on `lc`, replace the first unselected parent) never decreases the
+dominated hypervolume `hvSpec` of the population. -/
+theorem steady_update_hv_monotone_partial (m : Nat) (r : Pt) (hr : r.length = m) (lc : LeastFn) (hlc : LcOK lc)
+    (hleast : LeastContribOn r lc) (parents : List Indiv) (o : Indiv) (mu : Nat)
+    (hmu : 1 ≤ mu) (hlen : parents.length = mu)
+    (hd : ∀ p ∈ parents ++ [o], p.pen.length = m) (hbelow : ∀ p ∈ parents ++ [o], ltAll p.pen r = true) :
+    hvSpec (parents.map (·.pen)) r ≤ hvSpec ((steadyUpdate (mkIndicator lc) parents o mu).map (·.pen)) r := by
+  have hpts : (parents ++ [o]).map (·.pen) = parents.map (·.pen) ++ [o.pen] := by simp
+  have hdp : ∀ p ∈ parents.map (·.pen) ++ [o.pen], p.length = m := by
+    intro p hp; rw [← hpts] at hp
+    obtain ⟨q, hq, rfl⟩ := List.mem_map.mp hp; exact hd q hq
+  have hbp : ∀ p ∈ parents.map (·.pen) ++ [o.pen], ltAll p r = true := by
+    intro p hp; rw [← hpts] at hp
+    obtain ⟨q, hq, rfl⟩ := List.mem_map.mp hp; exact hbelow q hq
+  have hn : (parents.map (·.pen) ++ [o.pen]).length = mu + 1 := by simp [hlen]
+  have hne : parents.map (·.pen) ++ [o.pen] ≠ [] := by simp
+  have hall_pen := applySelect_map_pen (mkIndicator lc) (parents ++ [o]) mu
+  have hall_len := applySelect_length (mkIndicator lc) (parents ++ [o]) mu
+  have htake : ((applySelect (mkIndicator lc) (parents ++ [o]) mu).take parents.length).map (·.pen) = parents.map (·.pen) := by
+    rw [List.map_take, hall_pen, hpts, List.take_left' (by simp)]
+  unfold steadyUpdate
+  simp only
+  split
+  · rcases replaceFirstUnselected_cases
+      ((applySelect (mkIndicator lc) (parents ++ [o]) mu).getD parents.length default)
+      ((applySelect (mkIndicator lc) (parents ++ [o]) mu).take parents.length) with h | ⟨A, p, B, h1, h2, h3⟩
+    · rw [h, htake]; exact Nat.le_refl _
+    · rw [h3]
+      -- the discarded individual has index `A.length`
+      have hAlen : A.length < parents.length := by
+        have := congrArg List.length h1
+        simp [hall_len] at this
+        omega
+      have hi' : A.length < (parents ++ [o]).length := by simp; omega
+      have hpi : (applySelect (mkIndicator lc) (parents ++ [o]) mu).getD A.length default = p := by
+        have hx : (applySelect (mkIndicator lc) (parents ++ [o]) mu).getD A.length default =
+            ((applySelect (mkIndicator lc) (parents ++ [o]) mu).take parents.length).getD A.length default := by
+          simp [List.getD_eq_getElem?_getD, hAlen]
+        rw [hx, h1]; simp [List.getD_eq_getElem?_getD]
+      have hselfalse := applySelect_sel (mkIndicator lc) (parents ++ [o]) mu A.length hi'
+      rw [hpi, h2, hpts] at hselfalse
+      have hflen := select_length (mkIndicator lc (parents.map (·.pen) ++ [o.pen]))
+        (fastSort (parents.map (·.pen) ++ [o.pen])) mu
+      rw [fastSort_length hdp, hn] at hflen
+      have hfalse : (select (mkIndicator lc (parents.map (·.pen) ++ [o.pen]))
+          (fastSort (parents.map (·.pen) ++ [o.pen])) mu).getD A.length true = false := by
+        rw [List.getD_eq_getElem?_getD, List.getElem?_eq_getElem (by omega)]
+        rw [List.getD_eq_getElem?_getD, List.getElem?_eq_getElem (by omega)] at hselfalse
+        simpa using hselfalse.symm
+      have hcases := select_unselected_cases _ (mkIndicator_ok lc hlc _) (fastSort (parents.map (·.pen) ++ [o.pen])) mu hmu
+        (by rw [fastSort_length hdp, hn])
+        (by
+          intro j hj
+          rw [fastSort_length hdp] at hj
+          rw [rankAt_fastSort hdp j hj]; exact rankSpec_pos _ _)
+        A.length (by rw [fastSort_length hdp, hn]; omega) hfalse
+      have hiP : A.length < (parents.map (·.pen) ++ [o.pen]).length := by rw [hn]; omega
+      have hmono := steady_state_hv_monotone m (parents.map (·.pen)) o.pen r A.length hr
+        (fun p hp => hdp p (List.mem_append.mpr (Or.inl hp))) (hdp o.pen (by simp)) hiP
+        (by
+          rcases hcases with h2r | ⟨hall1, hmem⟩
+          · left
+            rw [rankAt_fastSort hdp A.length hiP] at h2r
+            rcases rankSpec_cases (parents.map (·.pen) ++ [o.pen]) ((parents.map (·.pen) ++ [o.pen])[A.length]) with h1r | ⟨q, hq, hdq, _⟩
+            · omega
+            · obtain ⟨j, hj, e⟩ := List.getElem_of_mem hq
+              refine ⟨j, hj, ?_, ?_⟩
+              · intro hji
+                subst hji
+                rw [← e, dominates_irrefl] at hdq
+                cases hdq
+              · rw [e]
+                simp only [dominates, Bool.and_eq_true] at hdq
+                exact hdq.1
+          · right
+            rw [fastSort_length hdp] at hmem hall1
+            rw [mkIndicator_single_front lc hlc _ hne] at hmem
+            simp only [List.mem_singleton] at hmem
+            rw [hmem]
+            have hnd : ∀ a ∈ parents.map (·.pen) ++ [o.pen], ∀ b ∈ parents.map (·.pen) ++ [o.pen], dominates a b = false := by
+              intro a ha b hb
+              obtain ⟨j, hj, e⟩ := List.getElem_of_mem hb
+              have h1 := hall1 j hj
+              rw [rankAt_fastSort hdp j hj, e] at h1
+              exact (rankSpec_eq_one_iff _ _).mp h1 a ha
+            have := hleast _ hne (fun p hp => by rw [hdp p hp, hr]) hbp hnd (parents.map (·.pen)).length (by simp)
+            exact this)
+      refine Nat.le_trans hmono (Nat.le_of_eq (hvSpec_perm ?_))
+      -- the surviving population is a permutation of `(P ++ [o]).eraseIdx i`
+      have hPsplit : parents.map (·.pen) = A.map (·.pen) ++ p.pen :: B.map (·.pen) := by
+        rw [← htake, h1]; simp
+      have hlast : ((applySelect (mkIndicator lc) (parents ++ [o]) mu).getD parents.length default).pen = o.pen := by
+        have h4 := congrArg (fun l => l.getD parents.length []) hall_pen
+        simp only [hpts] at h4
+        have hlt : parents.length < (applySelect (mkIndicator lc) (parents ++ [o]) mu).length := by rw [hall_len]; simp
+        simp only [List.getD_eq_getElem?_getD, List.getElem?_map, List.getElem?_eq_getElem hlt, Option.map_some,
+          Option.getD_some] at h4
+        rw [List.getD_eq_getElem?_getD, List.getElem?_eq_getElem hlt]
+        simp only [Option.getD_some]
+        rw [h4]
+        simp
+      rw [hPsplit]
+      simp only [List.map_append, List.map_cons, hlast]
+      have he : (A.map (·.pen) ++ p.pen :: B.map (·.pen) ++ [o.pen]).eraseIdx A.length =
+          A.map (·.pen) ++ (B.map (·.pen) ++ [o.pen]) := by
+        rw [List.append_assoc, List.eraseIdx_append_of_length_le (by simp)]
+        simp
+      rw [he]
+      exact (List.perm_append_comm (l₁ := B.map (·.pen)) (l₂ := [o.pen])).append_left _
+  · rw [htake]; exact Nat.le_refl _
+
+
+/-- non-vacuity / composition: SMS-EMOA with the specification-level hypervolume indicator never
+decreases the dominated hypervolume, for every number of objectives -/
+theorem steady_update_hv_monotone_spec_indicator (m : Nat) (r : Pt) (hr : r.length = m)
+    (parents : List Indiv) (o : Indiv) (mu : Nat) (hmu : 1 ≤ mu) (hlen : parents.length = mu)
+    (hd : ∀ p ∈ parents ++ [o], p.pen.length = m) (hbelow : ∀ p ∈ parents ++ [o], ltAll p.pen r = true) :
+    hvSpec (parents.map (·.pen)) r ≤ hvSpec ((steadyUpdate (mkIndicator (specLeast r)) parents o mu).map (·.pen)) r :=
+  steady_update_hv_monotone_partial m r hr _ (specLeast_ok r).1 (specLeast_ok r).2 parents o mu hmu hlen hd hbelow
 
 end SharkVerif.C14
